@@ -15,9 +15,13 @@ Parts (see notes/C14.md):
          HashMap order is not deterministic — D13), and for accepted definitions every emitted name
          (structs, getters, enums, variants, accessor methods incl. what each ref resolves to,
          new_as_<ref>) against the model.
-  D11 (block ref nested in its own target: stack overflow) and D14 (register ref with reset override
-  to a missing / non-register target: panic in reset_values_converted) are KNOWN-FINDINGs; any other
-  disagreement is a VIOLATION with a shrunk definition.
+  D11 (block ref nested in its own target: stack overflow) was repaired in /repo df1ac90 (refs_validated ends with
+  ensure_no_recursive_block_refs) and D14 (register ref with reset override to a missing / non-register target:
+  panic in reset_values_converted) in 0a1d247: both are compared with the model like every other definition
+  (cyclic block refs: rejected, kind ref_recursive, names of the ref and of its target; a generator crash on them is
+  a VIOLATION).  Cyclic / near-miss shapes: CYC_SHAPES (corpus + injected into random trees).  Any disagreement is a
+  VIOLATION with a shrunk definition.  (While a finding is listed as open in KNOWN_FINDINGS.jsonl the historical
+  model of that behaviour is used instead and the class is reported as KNOWN-FINDING.)
 """
 import collections, concurrent.futures, copy, json, os, random, re
 import vlib, adef
@@ -28,8 +32,9 @@ RULE = ("A: random + boundary-biased printable-ASCII names (mixed case, digits, 
         "form / Boundary::list_from string form) through the real DSL/JSON/YAML/TOML front ends; normalised names read "
         "from the generator's error messages and boundaries from the MIR; compared with Case.v evaluated in Coq on the "
         "real MIR. B: random object trees (depth <= 3) with stem spellings colliding only after normalisation, refs to "
-        "earlier/later/deeper/enclosing/missing/wrong-kind targets, duplicate fields/enums/variants, forbidden override "
-        "shapes, device names; compared: status, error kind + names (dangling refs: member of the model's candidate "
+        "earlier/later/deeper/enclosing/missing/wrong-kind targets, block refs inside their own target (direct, through sub "
+        "blocks, through other block refs, 2- and 3-cycles) and legal near-misses (sibling, chain from the root, diamond), "
+        "duplicate fields/enums/variants, forbidden override shapes, device names; compared: status, error kind + names (dangling refs: member of the model's candidate "
         "set), all emitted names + ref resolution for accepted definitions. distinct = distinct names (A) / distinct "
         "abstract definitions (B)")
 
@@ -474,6 +479,82 @@ def render_b(d, syntax):
     return text
 
 
+# Block refs that lie inside their own target (D11, repaired in /repo df1ac90: rejected by refs_validated with
+# `Block ref "R" refers to block "T" which contains the ref itself`) and the legal near-misses.
+# (expected verdict of a definition made of the shape alone, builder).  Blocks a..d, refs x..w; B = block, F = block ref.
+CYC_SHAPES = {
+    # the ref is a direct child of its target
+    "direct": ("ref_recursive:x|a", lambda B, F: [B("a", [F("x", "a")])]),
+    # ... sits in a sub block of its target
+    "via_sub_block": ("ref_recursive:x|a", lambda B, F: [B("a", [B("b", [F("x", "a")])])]),
+    "via_two_sub_blocks": ("ref_recursive:x|a", lambda B, F: [B("a", [B("b", [B("c", [F("x", "a")])])])]),
+    # ... is reached through a second block ref: a { x -> b }, b { y -> a }
+    "two_cycle": ("ref_recursive:x|b", lambda B, F: [B("a", [F("x", "b")]), B("b", [F("y", "a")])]),
+    "two_cycle_target_first": ("ref_recursive:y|a", lambda B, F: [B("b", [F("y", "a")]), B("a", [F("x", "b")])]),
+    "three_cycle": ("ref_recursive:x|b", lambda B, F: [B("a", [F("x", "b")]), B("b", [F("y", "c")]), B("c", [F("z", "a")])]),
+    # ... through a block ref and then a sub block of that ref's target
+    "ref_then_sub_block": ("ref_recursive:x|b", lambda B, F: [B("a", [F("x", "b")]), B("b", [B("c", [F("y", "a")])])]),
+    # ... the enclosing block is a sub block of the target's target
+    "sub_block_then_ref": ("ref_recursive:x|c", lambda B, F: [B("a", [B("b", [F("x", "c")])]), B("c", [F("y", "a")])]),
+    # a legal ref first, the recursive one later in the same block
+    "legal_then_recursive": ("ref_recursive:x|a", lambda B, F: [B("d", []), B("a", [F("w", "d"), F("x", "a")])]),
+    # order of the report: the refs of a block come before the refs of its sub blocks (x, not y which is first in pre-order)
+    "report_order": ("ref_recursive:x|a", lambda B, F: [B("a", [B("b", [F("y", "b")]), F("x", "a")])]),
+    # the cycle does not go through the first block ref's own block: a { w -> b }, b { x -> c }, c { y -> b }
+    "cycle_behind_legal_ref": ("ref_recursive:x|c", lambda B, F: [B("a", [F("w", "b")]), B("b", [F("x", "c")]), B("c", [F("y", "b")])]),
+    # ---- legal
+    "sibling": ("ok", lambda B, F: [B("a", []), B("b", [F("x", "a")])]),
+    "sibling_later": ("ok", lambda B, F: [B("b", [F("x", "a")]), B("a", [])]),
+    "root_chain": ("ok", lambda B, F: [B("a", []), B("b", [F("x", "a")]), F("y", "b")]),
+    "root_ref_to_ref_holder": ("ok", lambda B, F: [F("y", "b"), B("b", [F("x", "a"), F("w", "d")]), B("a", []), B("d", [])]),
+    "diamond": ("ok", lambda B, F: [B("d", []), B("b", [F("x", "d")]), B("c", [F("y", "d")]), B("a", [F("z", "b"), F("w", "c")])]),
+    "own_sub_block": ("ok", lambda B, F: [B("a", [B("b", []), F("x", "b")])]),
+    "sub_block_of_sibling": ("ok", lambda B, F: [B("a", [B("b", [])]), B("c", [F("x", "b")])]),
+    "same_target_twice": ("ok", lambda B, F: [B("a", []), B("b", [F("x", "a"), F("y", "a")])]),
+    "chain_of_three": ("ok", lambda B, F: [B("c", []), B("b", [F("y", "c")]), B("a", [F("x", "b")]), F("z", "a")]),
+}
+CYC_STEMS = {k: ["cyc", k] for k in "abcdxyzw"}
+
+
+def cyc_objects(shape, decl, refn, base):
+    """Objects of CYC_SHAPES[shape]; decl(k) / refn(k) spell name k where it is declared / referred to; every block and
+    block ref gets its own offset (base, base + 1000, ...)."""
+    n = [0]
+
+    def off():
+        n[0] += 1
+        return base + 1000 * n[0]
+
+    def B(k, objs):
+        return adef.mk_block(decl(k), objs, address_offset=off())
+
+    def F(k, t):
+        r = adef.mk_ref(decl(k), refn(t), {"kind": "block", "address_offset": off()})
+        r["_mode"] = "cyc"
+        return r
+    return CYC_SHAPES[shape][1](B, F)
+
+
+def inject_cyc(rng, g, objs):
+    """Put one of the shapes into the tree: at the root or inside a random block (depth <= 2), spelled like the rest."""
+    shape = rng.choice(sorted(CYC_SHAPES))
+    spelled = {}
+
+    def decl(k):
+        if k not in spelled:
+            spelled[k] = spell(rng, CYC_STEMS[k], g.manifest, g.bset)
+        return spelled[k]
+
+    def refn(k):
+        return spell(rng, CYC_STEMS[k], g.manifest, g.bset) if rng.random() < 0.5 else decl(k)
+    new = cyc_objects(shape, decl, refn, 3000000)
+    hosts = [objs] + [o["objects"] for o, dep in adef.walk(objs) if o["kind"] == "block" and dep <= 1]
+    host = rng.choice(hosts) if rng.random() < 0.5 else objs
+    pos = rng.randrange(len(host) + 1)
+    host[pos:pos] = new
+    return shape
+
+
 def gen_case_b(rng, i, force_valid=False):
     syntax = rng.choice(["dsl", "dsl", "json", "yaml", "toml"])
     manifest = syntax != "dsl"
@@ -490,9 +571,10 @@ def gen_case_b(rng, i, force_valid=False):
         for ref in rng.sample(g.refs, min(k, len(g.refs))):
             m = mutate_front(rng, ref, manifest)
             front = m if front is None else front + "+" + m
+    shape = inject_cyc(rng, g, objs) if rng.random() < 0.1 else None
     fix_novalue(objs)
     name = "Dev" if rng.random() < 0.85 else rng.choice(DEV_NAMES)
-    return make_case_b(f"b{i}", d, syntax, name), {"adef": d, "front": front, "syntax": syntax, "dev_name": name}
+    return make_case_b(f"b{i}", d, syntax, name), {"adef": d, "front": front, "syntax": syntax, "dev_name": name, "shape": shape}
 
 
 def fix_novalue(objs):
@@ -511,8 +593,9 @@ def make_case_b(cid, d, syntax, name):
 
 
 def corpus_b():
-    """Fixed definitions run first: the witnesses of D11 / D14, of the three mutation tests and of generator quirks met
-    while building the check."""
+    """Fixed definitions run first: the witnesses of D11 / D14, every cyclic / near-miss block-ref shape (CYC_SHAPES), the
+    witnesses of the three mutation tests and of generator quirks met while building the check.  `expect` (where given) is
+    the verdict written down by hand: the model must produce it (a third, independent opinion on the recursion check)."""
     R = lambda n, a, fs=None: adef.mk_register(n, a, 8, fs or [])
     cfg = lambda **kw: adef.mk_config(register_address_type="u32", command_address_type="u32", buffer_address_type="u32", **kw)
     bo = lambda off: {"kind": "block", "address_offset": off}
@@ -536,19 +619,51 @@ def corpus_b():
         ("method_collision", "dsl", "Dev", [R("aB1c", 0), R("ab1c", 1)]),
         ("bad_device_name", "dsl", "my_dev", [R("r", 0)]),
     ]
+    expect = {"d11_direct": "error:ref_recursive:B|A", "d11_indirect": "error:ref_recursive:B|C"}
+    # every cyclic / near-miss shape alone, in all four syntaxes round-robin, refs spelled differently from the declarations
+    for j, shape in enumerate(sorted(CYC_SHAPES)):
+        decl = lambda k: "Cyc" + k.upper()
+        refn = lambda k: ["cyc_" + k, "CYC_" + k.upper(), "cyc" + k.upper(), "Cyc" + k.upper()][j % 4]
+        objs = cyc_objects(shape, decl, refn, 0)
+        want = CYC_SHAPES[shape][0]
+        if want != "ok":
+            r, t = want.split(":")[1].split("|")
+            want = "error:ref_recursive:Cyc%s|Cyc%s" % (r.upper(), t.upper())
+        out.append(("cyc_" + shape, ["dsl", "json", "yaml", "toml"][j % 4], "Dev", objs))
+        expect["cyc_" + shape] = want
+    # a legal chain whose innermost block has content: register addresses 1 / 2101 / 52101
+    out.append(("cyc_root_chain_with_register", "dsl", "Dev",
+                [adef.mk_block("A", [R("Ra", 1)], address_offset=0), adef.mk_block("B", [adef.mk_ref("X", "a", bo(100))], address_offset=2000),
+                 adef.mk_ref("Y", "b", bo(50000))]))
+    expect["cyc_root_chain_with_register"] = "ok"
     cases, metas = [], {}
     for k, (tag, syntax, name, objs) in enumerate(out):
         d = {"config": cfg(), "objects": objs}
         c = make_case_b(f"b{k}", d, syntax, name)
         cases.append(c)
-        metas[c["id"]] = {"adef": d, "front": None, "syntax": syntax, "dev_name": name, "corpus": tag}
+        metas[c["id"]] = {"adef": d, "front": None, "syntax": syntax, "dev_name": name, "corpus": tag, "expect": expect.get(tag)}
     return cases, metas
+
+
+def rendered_objects(objs, manifest):
+    """The objects in the order the front end meets them (pre-order).  The manifest syntaxes render an object list as a map
+    keyed by the name as written (adef.to_manifest_tree): of two objects with the SAME spelling the later one replaces the
+    earlier one, at the earlier one's position — the earlier object never reaches the front end."""
+    if manifest:
+        m = {}
+        for o in objs:
+            m[o["name"]] = o
+        objs = list(m.values())
+    for o in objs:
+        yield o
+        if o["kind"] == "block":
+            yield from rendered_objects(o["objects"], manifest)
 
 
 def first_front_term(d, manifest):
     """Coq term: model verdict of the front end = first rejected ref in source (pre-order) order."""
     terms = []
-    for o, _ in adef.walk(d["objects"]):
+    for o in rendered_objects(d["objects"], manifest):
         if o["kind"] == "ref":
             fn = "front_manifest" if manifest else f"front_dsl {vlib.coq_string(o['name'])}"
             terms.append(f"{fn} ({shape_of(o, manifest)})")
@@ -614,9 +729,16 @@ def agree(impl, model):
 
 
 def model_fn():
-    """D14 open: the pass order of the unrepaired tree (reset_values_converted before refs_validated);
-    fixed/absent: refs_validated first (after /repo 0a1d247)."""
-    return "c14_full" if any(k["id"] == "D14" for k in vlib.load_known_findings("C14")) else "c14_full_refs_first"
+    """Which model of Names.v the real generator is compared with.  Current tree (D14, D9, D11 repaired):
+    c14_full_repaired = refs_validated first, ending with ensure_no_recursive_block_refs (ref_recursive), block refs lowered
+    to an accessor only.  Historical, only while the finding is listed as open: D14 open -> pass order of the unrepaired
+    tree (reset_values_converted before refs_validated); D11 open -> no recursion check, lowering expands block refs."""
+    open_ids = {k["id"] for k in vlib.load_known_findings("C14")}
+    if "D14" in open_ids:
+        return "c14_full"
+    if "D11" in open_ids:
+        return "c14_full_refs_first"
+    return "c14_full_repaired"
 
 
 def run_gen_parallel(ctx, exe, cases, tag, shards=8):
@@ -743,14 +865,30 @@ def shrink_b(ctx, exe, case, meta):
 
 # ---------------------------------------------------------------------------------------------- run
 
+GEN_RUNNER_VMEM_KB = 2 * 1024 * 1024
+
+
+def capped(ctx, exe):
+    """gen_runner behind an address-space limit.  An unbounded expansion of cyclic block refs does not always overflow the
+    stack: with the lowering of /repo 7e1bb11 and WITHOUT the recursion check of df1ac90 the collision pass grows the heap
+    instead (observed: 64 GB, global OOM kill after minutes, per cyclic definition).  With the limit the allocation fails,
+    the process aborts within seconds and the case is reported as status abort like a stack overflow."""
+    w = os.path.join(ctx.work, "gen_runner_capped.sh")
+    with open(w, "w") as f:
+        f.write("#!/bin/sh\nulimit -v %d\nexec %s \"$@\"\n" % (GEN_RUNNER_VMEM_KB, exe))
+    os.chmod(w, 0o755)
+    return w
+
+
 def get_exe(ctx):
     """VERIF_GEN_RUNNER_EXE: use a pre-built gen_runner (mutation tests build it while /repo is modified and restore
     /repo at once, so that the window in which /repo differs is only the build)."""
     pre = os.environ.get("VERIF_GEN_RUNNER_EXE")
     if pre:
         ctx.log("using pre-built gen_runner", pre)
-        return pre, None
-    return gen_common.build_gen_runner(ctx)
+        return capped(ctx, pre), None
+    exe, err = gen_common.build_gen_runner(ctx)
+    return (capped(ctx, exe) if exe else exe), err
 
 
 def run(ctx):
@@ -849,6 +987,14 @@ def run(ctx):
         hist["B_syntax_" + c["syntax"]] += 1
         if m.get("corpus"):
             hist["B_corpus"] += 1
+        if m.get("shape"):
+            hist["B_shape_" + m["shape"]] += 1
+            hist["B_shape_injected"] += 1
+        if m.get("expect"):
+            m_res = mo.split(" ## ")[0]
+            if not (m_res.startswith("ok:") if m["expect"] == "ok" else m_res == m["expect"]):
+                violations.append(("B-corpus-expectation", cid, impl, mo, "verdict written down for corpus definition %s: %s"
+                                   % (m["corpus"], m["expect"])))
         if m["front"]:
             hist["B_front_mutation"] += 1
         if c["name"] != "Dev":
@@ -927,7 +1073,8 @@ def run(ctx):
     elif not info["ok"]:
         vlib.violation(ctx, {"broken": info["reason"], "theorem": "props/C14.v"}, no_input=True)
 
-    targeted = ["B_dup_object", "B_dup_field", "B_dup_enum", "B_dup_variant", "B_ref_unknown", "B_device_name", "B_dsl_ref_buffer",
+    targeted = ["B_dup_object", "B_dup_field", "B_dup_enum", "B_dup_variant", "B_ref_unknown", "B_ref_recursive", "B_device_name",
+                "B_dsl_ref_buffer",
                 "B_dsl_ref_ref", "B_dsl_override_forbidden", "B_manifest_ref_buffer", "B_manifest_ref_ref", "B_manifest_unexpected_key",
                 "B_ok"]
     missing = [t for t in targeted if hist[t] == 0]
